@@ -251,3 +251,34 @@ impl ChainSpec {
         Built { coin: self.coin, blocks }
     }
 }
+
+/// Deterministic chain whose outputs carry the given scripts (used by the script properties):
+/// `per_tx` outputs per transaction, `txs_per_block` transactions per block.
+pub fn chain_from_scripts(coin: Coin, scripts: &[Vec<u8>], values: &[u64], per_tx: usize, txs_per_block: usize, base: u64, time0: u32) -> ChainSpec {
+    let per_tx = per_tx.max(1);
+    let txs_per_block = txs_per_block.max(1);
+    let mut blocks = Vec::new();
+    let mut txs: Vec<TxSpec> = Vec::new();
+    let mk_cb = |n: usize| TxSpec {
+        version: 1,
+        locktime: 0,
+        inputs: vec![InSpec { src: Src::Null, script_sig: vec![2, (n & 0xff) as u8, (n >> 8) as u8], sequence: 0xffff_ffff, witness: vec![] }],
+        outputs: vec![OutSpec { value: 5_000_000_000, script: { let mut s = vec![0x76, 0xa9, 0x14]; s.extend([0x11; 20]); s.extend([0x88, 0xac]); s } }],
+        segwit: false,
+    };
+    let mut flush = |txs: &mut Vec<TxSpec>, blocks: &mut Vec<BlockSpec>| {
+        let n = blocks.len();
+        blocks.push(BlockSpec { version: 1, time: time0.wrapping_add(600 * n as u32).max(1), bits: 0x1d00ffff, nonce: n as u32, auxpow: None, coinbase: mk_cb(n), txs: std::mem::take(txs), dup_coinbase: None });
+    };
+    for (k, chunk) in scripts.chunks(per_tx).enumerate() {
+        let outputs: Vec<OutSpec> = chunk.iter().enumerate().map(|(j, s)| OutSpec { value: values[(k * per_tx + j) % values.len().max(1)], script: s.clone() }).collect();
+        txs.push(TxSpec { version: 2, locktime: 0, inputs: vec![InSpec { src: Src::Unknown((k & 0xff) as u8, k as u32), script_sig: vec![0x01, 0x51], sequence: 0xffff_fffe, witness: vec![] }], outputs, segwit: false });
+        if txs.len() == txs_per_block {
+            flush(&mut txs, &mut blocks);
+        }
+    }
+    if !txs.is_empty() || blocks.is_empty() {
+        flush(&mut txs, &mut blocks);
+    }
+    ChainSpec { coin, base, real_genesis: false, blocks }
+}
